@@ -291,3 +291,14 @@ def core_body(func):
     is a plain getter / an abstract stub"""
     return [st for st in body_without_docstring(func) if not isinstance(st, (ast.Pass, ast.Assert))
             and not (isinstance(st, ast.Expr) and isinstance(st.value, ast.Constant))]
+
+
+def dead_callfree_store(func, st):
+    """True for `name = <expression without calls>` whose name is never read in func: the statement cannot influence anything
+    an analysis of func computes (used by interpreters to skip values outside their fragment instead of giving up)"""
+    if not (isinstance(st, ast.Assign) and len(st.targets) == 1 and isinstance(st.targets[0], ast.Name)):
+        return False
+    if any(isinstance(n, (ast.Call, ast.Await, ast.Yield, ast.YieldFrom, ast.NamedExpr)) for n in ast.walk(st.value) if not isinstance(n, ast.Lambda)) and not isinstance(st.value, ast.Lambda):
+        return False
+    name = st.targets[0].id
+    return not any(isinstance(n, ast.Name) and n.id == name and isinstance(n.ctx, ast.Load) for n in ast.walk(func))
